@@ -37,14 +37,15 @@ var (
 // fakeProducer implements the part of sarama.AsyncProducer the library uses.
 type fakeProducer struct {
 	sarama.AsyncProducer
-	in chan *sarama.ProducerMessage
+	in   chan *sarama.ProducerMessage
+	succ chan *sarama.ProducerMessage // acknowledgements (nil: the stream does not ask for them); 256 deep like sarama's
 }
 
 func (f *fakeProducer) Input() chan<- *sarama.ProducerMessage     { return f.in }
-func (f *fakeProducer) Successes() <-chan *sarama.ProducerMessage   { return nil }
-func (f *fakeProducer) Errors() <-chan *sarama.ProducerError        { return nil }
-func (f *fakeProducer) Close() error                                { return nil }
-func (f *fakeProducer) AsyncClose()                                 {}
+func (f *fakeProducer) Successes() <-chan *sarama.ProducerMessage { return f.succ }
+func (f *fakeProducer) Errors() <-chan *sarama.ProducerError      { return nil }
+func (f *fakeProducer) Close() error                              { return nil }
+func (f *fakeProducer) AsyncClose()                               {}
 
 // field numbers of the shipped .proto schemas (FlowType1 / FlowType2), written down from the .proto
 var numField = map[int]string{1: "TimeReceived", 2: "SequenceNumber", 3: "ObsDomainID", 4: "TimeFlowStartInSecs", 5: "TimeFlowEndInSecs",
@@ -268,11 +269,16 @@ func main() {
 	for si := 0; si < nstreams; si++ {
 		sc := schemas[si%2]
 		topic := fmt.Sprintf("topic-%d", si)
-		kp, err := producer.NewKafkaProducer(producer.ProducerInput{KafkaBrokers: []string{"unused:9092"}, KafkaVersion: sarama.DefaultVersion, KafkaTopic: topic, ProtoSchemaConvertor: sc.conv})
+		acks := si%4 == 1 // the application asks for acknowledgements (KafkaLogSuccesses): one per record, whatever the message size
+		kp, err := producer.NewKafkaProducer(producer.ProducerInput{KafkaBrokers: []string{"unused:9092"}, KafkaVersion: sarama.DefaultVersion, KafkaTopic: topic, ProtoSchemaConvertor: sc.conv, KafkaLogSuccesses: acks})
 		if err != nil {
 			panic(err)
 		}
 		fp := &fakeProducer{in: make(chan *sarama.ProducerMessage)}
+		if acks {
+			fp.in = make(chan *sarama.ProducerMessage, 256)
+			fp.succ = make(chan *sarama.ProducerMessage, 256)
+		}
 		kp.SetSaramaProducer(fp)
 		consMsg := sc.mk()
 		kc := consumer.NewKafkaConsumer(consumer.ConsumerInput{KafkaTopic: topic, KafkaProtoSchema: consMsg, MsgDelimitWithLen: true})
@@ -306,6 +312,9 @@ func main() {
 				cn, cs := reflectFields(cm)
 				ev["cons"] = vt.Ev{"nums": cn, "strs": strMapB(cs)}
 				w.Emit(ev)
+				if fp.succ != nil {
+					fp.succ <- pm // the broker acknowledges
+				}
 			}
 		}()
 		v6 := si%4 >= 2
@@ -331,6 +340,9 @@ func main() {
 				n := r.Intn(5)
 				if r.Intn(10) == 0 {
 					n = 20 + r.Intn(30)
+				}
+				if acks && j == nmsgs/2 {
+					n = 560 + r.Intn(100) // more records in one message than the client's channels hold
 				}
 				recs := make([]any, 0, n)
 				poor := r.Intn(3) == 0 // the whole message comes from a poorer template
